@@ -355,11 +355,49 @@ func hasDupKeys(s string) bool {
 	}
 }
 
+// DNode: a recursive named type — lists, trees and keyed graphs of any depth
+type DNode struct {
+	ID    int
+	Tags  []string
+	Next  *DNode
+	Kids  []DNode
+	ByKey map[string]*DNode
+	note  string
+}
+
+func dumpChain(r *rand.Rand, depth int) *DNode {
+	var head *DNode
+	for i := 0; i < depth; i++ {
+		n := &DNode{ID: depth - i, Next: head}
+		if chance(r, 0.3) {
+			n.Tags = []string{dumpString(r)}
+		}
+		switch {
+		case i > 0 && chance(r, 0.15):
+			n.Kids, n.Next = []DNode{*head}, nil // descend through a slice element instead
+		case i > 0 && chance(r, 0.15):
+			n.ByKey, n.Next = map[string]*DNode{"k": head}, nil // … or through a map entry
+		}
+		head = n
+	}
+	return head
+}
+
 func dumpCase(r *rand.Rand) Case {
 	g := &dgen{r: r, scope: !chance(r, 0.1)}
 	t := g.strct(1 + r.IntN(4))
 	pv := reflect.New(t)
 	g.fill(pv.Elem(), 0)
+	if chance(r, 0.04) {
+		// deep recursion: depth 1-8, or far deeper than any plausible built-in limit
+		d := 1 + r.IntN(8)
+		if chance(r, 0.5) {
+			d = 12 + r.IntN(70)
+		}
+		g.scope = true
+		t = reflect.TypeOf(DNode{})
+		pv = reflect.ValueOf(dumpChain(r, d))
+	}
 	var src interface{} = pv.Interface()
 	tags := []string{"dump:*T"}
 	switch r.IntN(10) {
